@@ -18,7 +18,7 @@
 const char* const H_NAME = "c01_mixed";
 const char* const H_PROPERTY = "C01";
 
-enum { M_YIELD = 0, M_MUTEX, M_COND, M_SEM, M_RW, M_BARRIER, M_CHAN, M_MULTI, M_SLEEP, M_DETACH, M_PIPE, M_CLOSESIG, M_STORM, M_NKINDS };
+enum { M_YIELD = 0, M_MUTEX, M_COND, M_SEM, M_RW, M_BARRIER, M_CHAN, M_MULTI, M_SLEEP, M_DETACH, M_PIPE, M_CLOSESIG, M_STORM, M_MSIG, M_NKINDS };
 #define MAXMOD 5
 #define MAXF 96
 typedef struct mod {
@@ -35,6 +35,8 @@ typedef struct mod {
   volatile int got;
   volatile int flag;
   fiber_t* waiter_fiber;
+  fiber_multi_signal_t msig;
+  _Atomic int ms_produced, ms_consumed;
 } mod_t;
 static mod_t M[MAXMOD];
 static int nmod;
@@ -328,6 +330,42 @@ static void* f_storm(void* p) {
   }
   return NULL;
 }
+/* multi-signal: waiters claim units, the raiser produces them; waiters outlive the raiser (the library reads a
+ * waiter's list node while raising - known finding KF-C20-1 - so a waiter must not be reclaimed before that) */
+static int ms_try_claim(mod_t* m) {
+  int c = atomic_load(&m->ms_consumed);
+  while (c < atomic_load(&m->ms_produced))
+    if (atomic_compare_exchange_weak(&m->ms_consumed, &c, c + 1)) return 1;
+  return 0;
+}
+static void* f_msig(void* p) {
+  arg_t* a = p;
+  mod_t* m = a->m;
+  if (a->role == 0) {
+    int got = 0;
+    while (got < m->a) {
+      if (ms_try_claim(m)) {
+        got++;
+        op_done();
+        if (atomic_load(&m->ms_consumed) < atomic_load(&m->ms_produced)) fiber_multi_signal_raise(&m->msig);
+        continue;
+      }
+      fiber_multi_signal_wait(&m->msig);
+    }
+    while (!m->flag) RS0(fiber_yield);
+  } else {
+    const int total = m->a * (1 + m->b);
+    for (int i = 0; i < total; i++) {
+      atomic_fetch_add(&m->ms_produced, 1);
+      fiber_multi_signal_raise(&m->msig);
+      if (m->c) RS0(fiber_yield);
+      op_done();
+    }
+    while (atomic_load(&m->ms_consumed) < total) RS0(fiber_yield);
+    m->flag = 1;
+  }
+  return NULL;
+}
 static void spawn(void* (*fn)(void*), mod_t* m, int role) {
   if (nf >= MAXF) sim_violation("SIM-too-many-fibers", "harness table full");
   args[nf].m = m;
@@ -340,7 +378,7 @@ void h_run(void) {
   nmod = wl_int(1, sim_tier_thorough() ? MAXMOD : 4);
   char d[400];
   int dk = 0;
-  static const char* const kn[] = {"yield", "mutex", "cond", "sem", "rwlock", "barrier", "chan", "multi", "sleep", "detach", "pipe", "close-then-signal", "storm"};
+  static const char* const kn[] = {"yield", "mutex", "cond", "sem", "rwlock", "barrier", "chan", "multi", "sleep", "detach", "pipe", "close-then-signal", "storm", "multi-signal"};
   for (int i = 0; i < nmod; i++) {
     M[i].kind = wl_pct(25) ? M_STORM : wl_pick(M_NKINDS);
     M[i].a = wl_int(1, 4);
@@ -421,6 +459,12 @@ void h_run(void) {
         if (pipe(m->pfd) != 0) sim_violation("SIM-pipe", "pipe() failed");
         spawn(f_pipe, m, 0);
         spawn(f_pipe, m, 1);
+        break;
+      case M_MSIG:
+        fiber_multi_signal_init(&m->msig);
+        spawn(f_msig, m, 0);
+        if (m->b) spawn(f_msig, m, 0);
+        spawn(f_msig, m, 1);
         break;
       case M_STORM:
         fiber_mutex_init(&m->mtx);
